@@ -286,7 +286,7 @@ func c15Run(r *ev.Run) {
 			{2, 2, 0, []uint16{lo, mid, hi}, 3},
 		}
 	}
-	r.Rule = "real detector with dynamic threshold: every stream of the stated length over per-pixel alphabets {lo, lo+1, mid, hi} (scene mean below, inside, above [temp-thresh-min,max] = [1200,1400]) for interiors of 1, 2 and 4 pixels in one or two rows (edge-pixels 0,1,2), with at most one FFC period of any length and at most one camera reset at any position; (min,max) in {unset,set}^2 plus min==max (threshold pinned inside / at the bottom of the scene range); preview frames 0,1,2. Oracle after every frame (deep layer) and at every sink StartRecording (API level, processor with min=max=0 so every motion frame starts a recording): background <= frame on the interior, border replicates nearest interior pixel, re-seeded after FFC/reset, threshold either unchanged or the bounded mean (+-1 float truncation), stored background/threshold = the ones in force (also when a camera reset arrives during a recording whose StopRecording reports an error). Non-trivial = stream in which the threshold was recomputed."
+	r.Rule = "real detector with dynamic threshold: every stream of the stated length over per-pixel alphabets {lo, lo+1, mid, hi} (scene mean below, inside, above [temp-thresh-min,max] = [1200,1400]) for interiors of 1, 2 and 4 pixels in one or two rows (edge-pixels 0,1,2), with at most one FFC period of any length and at most one camera reset at any position; (min,max) in {unset,set}^2 plus min==max (threshold pinned inside / at the bottom of the scene range); preview frames 0,1,2. Oracle after every frame (deep layer) and at every sink StartRecording (API level, processor with min=max=0 so every motion frame starts a recording): background <= frame on the interior, border replicates nearest interior pixel, re-seeded after FFC/reset, threshold either unchanged or the bounded mean (+-1 float truncation), stored background/threshold = the ones in force (also when a camera reset arrives during a recording whose StopRecording reports an error). Second stage (slowly accumulating state): macro events 'hold the interior values for k frames' (k in {1,12,25}) over values 1 and 2 counts apart, 2-3 blocks, so that the weight-based acceptance of warmer pixels is reached. Non-trivial = stream in which the threshold was recomputed."
 	c15APIEverywhere = r.Thorough()
 	r.Bounds["api_level_on"] = map[bool]string{true: "all shapes", false: "shapes up to 3x3 (deep layer on all)"}[c15APIEverywhere]
 	r.Assumptions = []string{"deep layer reads detector.background / tempThresh by name; API layer needs no private access"}
@@ -369,9 +369,81 @@ func c15Run(r *ev.Run) {
 	})
 }
 
+// c15Slow: the background estimate follows a warmer scene only after a pixel has stayed warmer for
+// about 10 x (difference) frames - state that short streams cannot reach. Macro events "hold these
+// interior values for k frames" (k in {1, 12, 25}) with values 1 and 2 counts apart reach it.
+func c15Slow(r *ev.Run) {
+	vals := []uint16{1100, 1101, 1102}
+	holds := []int{1, 12, 25}
+	type job struct {
+		cfg DCfg
+		nb  int
+	}
+	var jobs []job
+	for _, sh := range [][3]int{{3, 3, 1}, {3, 4, 1}} {
+		for _, mm := range [][2]uint16{{0, 0}, {1101, 0}, {0, 1101}, {1101, 1101}} {
+			for pv := 0; pv <= 1; pv++ {
+				cfg := DCfg{ResX: sh[0], ResY: sh[1], Edge: sh[2], T: 1000, Delta: 10, Count: 1, Gap: 1, OneDiff: true, Warmer: true, Dynamic: true, TMin: mm[0], TMax: mm[1], Preview: pv}
+				for nb := 2; nb <= 3; nb++ {
+					jobs = append(jobs, job{cfg, nb})
+				}
+			}
+		}
+	}
+	r.Bounds["slow_state_jobs"] = len(jobs)
+	r.Parallel(len(jobs), func(w *ev.Worker, i int) {
+		j := jobs[i]
+		ip := interiorPixels(j.cfg)
+		per := len(vals) * len(holds)
+		if len(ip) == 2 {
+			per = len(vals) * len(vals) * len(holds)
+		}
+		total := 1
+		for k := 0; k < j.nb; k++ {
+			total *= per
+		}
+		for code := 0; code < total; code++ {
+			var frames []DFrame
+			x := code
+			for b := 0; b < j.nb; b++ {
+				sel := x % per
+				x /= per
+				hold := holds[sel%len(holds)]
+				sel /= len(holds)
+				va := vals[sel%len(vals)]
+				vb := va
+				if len(ip) == 2 {
+					vb = vals[(sel/len(vals))%len(vals)]
+				}
+				for k := 0; k < hold; k++ {
+					f := DFrame{Pix: grid(j.cfg, 777), Tim: len(frames)}
+					f.Pix[ip[0][0]][ip[0][1]] = va
+					if len(ip) == 2 {
+						f.Pix[ip[1][0]][ip[1][1]] = vb
+					}
+					frames = append(frames, f)
+				}
+			}
+			c := c15Case{Cfg: j.cfg, Frames: frames}
+			sig, msg, rec := runC15(c)
+			w.Evaluations++
+			w.States++
+			w.Transitions += int64(len(frames))
+			w.Outcome(ev.Hash(j.cfg, rec, sig, "slow"))
+			if rec > 0 {
+				w.Nontrivial++
+			}
+			if sig != "" {
+				w.Violate(sig, msg, c15Case{Cfg: j.cfg, Frames: cloneStream(frames)}, len(frames))
+			}
+		}
+	})
+}
+
 func init() {
 	register(&Check{Property: "C15", Run: func(r *ev.Run) {
 		c15Run(r)
+		c15Slow(r)
 		r.Extra["deep_layer"] = c15DeepLayer.Load()
 	}, Replay: c15Replay})
 }
